@@ -30,8 +30,10 @@ class Comp:
         known = kw.get('known')
         n_known = sum(1 for i in self.issues if i.get('known'))
         n_this = sum(1 for i in self.issues if i.get('known') == known) if known else 0
-        n_new = len(self.issues) - n_known
-        if (known and n_this < 8) or (not known and n_new < 50):
+        # new issues are capped per (kind of issue, layer): a flood of one correspondence mismatch must not
+        # hide a direct failing input found later
+        n_new = sum(1 for i in self.issues if not i.get('known') and i['what'] == what and i['layer'] == layer)
+        if (known and n_this < 8) or (not known and n_new < 12):
             d = dict(what=what, layer=layer, replay=replay)
             d.update(kw)
             self.issues.append(d)
